@@ -211,6 +211,7 @@ def restore_expect(world, facts, before, obs, slots, inscope_good):
     # walk the selection in order; the first refusal / failure stops the run
     stopped = False
     done = set()
+    restored_locs = set()
     for i in idx:
         _n, dstr, loc = printed[i]
         cands = [e for e in offered_truth if e["loc"] == loc and
@@ -224,6 +225,14 @@ def restore_expect(world, facts, before, obs, slots, inscope_good):
         if stopped or k in done:
             continue
         dest_before = before.get(loc)
+        if loc in restored_locs:
+            # restored earlier in this very run: it exists now
+            if o.get("overwrite"):
+                notes["tags"].append("restore:same-location-twice-with-overwrite")
+                notes["stop_checking"] = True
+                break
+            dest_before = ("f", b"", 0, 0, b"")
+            notes["tags"].append("restore:same-location-twice")
         under_dest = any(p.startswith(loc + b"/") for p in before)
         # is any ancestor of the destination something else than a directory?  (then mkdirs fails)
         if dest_before is not None and not o.get("overwrite"):
@@ -256,6 +265,7 @@ def restore_expect(world, facts, before, obs, slots, inscope_good):
             continue
         slots[k] = ("restored", loc)
         done.add(k)
+        restored_locs.add(loc)
     return notes
 
 
